@@ -1,13 +1,14 @@
 import ParsecVerif.Proofs.CompoundInv
 import ParsecVerif.Proofs.CompoundSelf
-/-! The global invariant of the compound machine: context invariants, the chain of members of every
-    compound (`CI`), the descriptor of every compound object (`CS`); preservation by context moves. -/
+/-! The global invariant of the compound machine (composition forests): context invariants, the chain of
+    members of every compound (`CI`), the descriptor of every compound object (`CS`); one context transition
+    versus one compound (`cics_step`); preservation by context moves. -/
 namespace ParsecVerif.Compound
 open ParsecVerif.Context
 
 /-- the compound object: no task, pending count = the machine's `pending`, armed and added while some
-    member remains, in or past its (nested) callback once all members completed, and its callback stamp
-    is later than the callback stamp of the last member -/
+    member remains, in or past its (nested) callback once all members completed, its callback stamp is
+    later than the callback stamp of the last member, and it was added before any of its members -/
 structure CS (l : List Tp) (c : Comp) : Prop where
   ne : 1 ≤ c.members.length
   ex : ∃ ts : Tp, l[c.self]? = some ts ∧ ts.total = 0 ∧ ts.early = false ∧ SelfSt ts.st ∧ (ts.pend : Int) = c.pending ∧
@@ -15,14 +16,15 @@ structure CS (l : List Tp) (c : Comp) : Prop where
       (c.completed = c.members.length → ts.st = .inCbN ∨ ts.st = .done) ∧
       (c.completed < c.members.length → ts.cbAt = 0 ∧ ts.cbs = 0) ∧
       (ts.cbAt ≠ 0 → ∀ (ml : Nat) (tl : Tp), c.members[c.members.length - 1]? = some ml → l[ml]? = some tl →
-          tl.cbAt ≠ 0 ∧ tl.cbAt < ts.cbAt)
+          tl.cbAt ≠ 0 ∧ tl.cbAt < ts.cbAt) ∧
+      (∀ (m : Nat) (tm : Tp), m ∈ c.members → l[m]? = some tm → tm.addAt ≠ 0 → ts.addAt ≠ 0 ∧ ts.addAt < tm.addAt)
 
 structure GI (cs : CSt) : Prop where
   inv : Inv cs.base
   sinv : SInv cs.base
   nodup : (allMembers cs.comps).Nodup
   snodup : (allSelfs cs.comps).Nodup
-  sdisj : ∀ c ∈ cs.comps, c.self ∉ allMembers cs.comps
+  sown : ∀ c ∈ cs.comps, c.self ∉ c.members
   ci : ∀ (i : Nat) (c : Comp), cs.comps[i]? = some c → CI cs.base.tps c
   cself : ∀ (i : Nat) (c : Comp), cs.comps[i]? = some c → CS cs.base.tps c
 
@@ -32,13 +34,69 @@ theorem not_mem_of_contains {l : List Nat} {q : Nat} (h : (!l.contains q) = true
 theorem mem_allSelfs {comps : List Comp} {i : Nat} {c : Comp} (hc : comps[i]? = some c) : c.self ∈ allSelfs comps :=
   List.mem_map.2 ⟨c, List.mem_of_getElem? hc, rfl⟩
 
-/-- the object keeps satisfying `CS` when its descriptor moves by `SelfRel` and the last member keeps its callback stamp -/
-theorem cs_frame {l l' : List Tp} {c : Comp} (h : CS l c)
+theorem take_lt_of_nodup {l : List Nat} (hnd : l.Nodup) {k i p : Nat} (h : p ∈ l.take k) (hi : l[i]? = some p) : i < k := by
+  obtain ⟨j, hj, hget⟩ := List.getElem_of_mem h
+  have hjk : j < k := by have := List.length_take_le k l; simp at hj; omega
+  have hj' : l[j]? = some p := by
+    rw [List.getElem_take] at hget
+    have hjl : j < l.length := by simp at hj; omega
+    rw [List.getElem?_eq_getElem hjl, hget]
+  have := nodup_get_inj hnd hi hj'
+  omega
+
+/-- before its startup hook ran the compound object may be anything up to `added`; with a member past
+    `notAdded` it is added and armed: so while the object is being added every member is still untouched -/
+theorem members_fresh_of_adding {l : List Tp} {c : Comp} {clk : Nat} (hci : CI l c) (hcs : CS l c) (hS : ∀ tp ∈ l, tpOK clk tp)
+    {ts : Tp} (hts : l[c.self]? = some ts) (hst : ts.st = .adding ∨ ts.st = .notAdded) :
+    ∀ (m : Nat) (tm : Tp), m ∈ c.members → l[m]? = some tm → tm.addAt = 0 := by
+  obtain ⟨ts0, hts0, _, _, _, _, a1, a2, _, _, _⟩ := hcs.ex
+  rw [hts] at hts0; cases hts0
+  have hne := hcs.ne
+  have hcl : c.completed < c.members.length := by
+    rcases Nat.lt_or_ge c.completed c.members.length with h | h
+    · exact h
+    · have := hci.le
+      rcases a2 (by omega) with e | e <;> rcases hst with e' | e' <;> rw [e] at e' <;> cases e'
+  have key : ∀ (i m : Nat) (tm : Tp), c.members[i]? = some m → l[m]? = some tm → i = c.completed →
+      tm.st = .notAdded ∧ c.completed = 0 := by
+    intro i m tm hi htm hic
+    obtain ⟨x, hx, _, _, _, b4⟩ := hci.mem i m hi
+    rw [htm] at hx; cases hx
+    obtain ⟨_, b42, b43⟩ := b4 hic
+    have hna : tm.st = .notAdded := by
+      cases hs0 : tm.st
+      case notAdded => rfl
+      all_goals
+        have hp := b43 (by rw [hs0]; simp)
+        have : (0 : Int) < c.pending := by omega
+        obtain ⟨e, _⟩ := a1 this
+        rcases hst with e' | e' <;> rw [e] at e' <;> cases e'
+    exact ⟨hna, (b42 hna).1⟩
+  have hget : c.members[c.completed]? = some c.members[c.completed] := List.getElem?_eq_getElem hcl
+  obtain ⟨t0, ht0, _⟩ := hci.mem _ _ hget
+  have hc0 : c.completed = 0 := (key _ _ t0 hget ht0 rfl).2
+  intro m tm hm htm
+  obtain ⟨i, hil, hig⟩ := List.getElem_of_mem hm
+  have hi : c.members[i]? = some m := by rw [List.getElem?_eq_getElem hil, hig]
+  have hxs : tm.st = .notAdded := by
+    rcases Nat.eq_zero_or_pos i with e | e
+    · exact (key i m tm hi htm (by omega)).1
+    · obtain ⟨x, hx, _, _, c3, _⟩ := hci.mem i m hi
+      rw [htm] at hx; cases hx
+      exact c3 (by omega)
+  have hok := hS tm (List.mem_of_getElem? htm)
+  simp only [tpOK, hxs] at hok
+  exact hok.2.2.2.2.2.2.2.2.2.2.2.1
+
+/-- the object keeps satisfying `CS` when its descriptor moves by `SelfRel` and its members keep their
+    stamps up to: a callback stamp appears on an `added` member, an add stamp (= now) on an `adding` one -/
+theorem cs_frame {l l' : List Tp} {c : Comp} {clk : Nat} (h : CS l c) (hci : CI l c) (hS : ∀ tp ∈ l, tpOK clk tp)
     (hself : ∀ ts : Tp, l[c.self]? = some ts → ∃ ts' : Tp, l'[c.self]? = some ts' ∧ SelfRel ts ts')
-    (hmem : ∀ m ∈ c.members, ∀ tp' : Tp, l'[m]? = some tp' → ∃ tp : Tp, l[m]? = some tp ∧ tp'.cbAt = tp.cbAt) : CS l' c := by
-  obtain ⟨ts, hts, h0, he, hss, hp, h1, h2, h3, h4⟩ := h.ex
-  obtain ⟨ts', hts', r0, re, rp, rc, rcb, rss, rst⟩ := hself ts hts
-  refine ⟨h.ne, ts', hts', r0, re, rss, by rw [rp]; exact hp, ?_, ?_, ?_, ?_⟩
+    (hmem : ∀ m ∈ c.members, ∀ tp' : Tp, l'[m]? = some tp' → ∃ tp : Tp, l[m]? = some tp ∧
+        (tp'.cbAt = tp.cbAt ∨ tp.st = .added) ∧ (tp'.addAt = tp.addAt ∨ (tp.st = .adding ∧ tp'.addAt = clk))) : CS l' c := by
+  obtain ⟨ts, hts, h0, he, hss, hp, h1, h2, h3, h4, h5⟩ := h.ex
+  obtain ⟨ts', hts', r0, re, rp, rc, rcb, rss, ra, rst⟩ := hself ts hts
+  refine ⟨h.ne, ts', hts', r0, re, rss, by rw [rp]; exact hp, ?_, ?_, ?_, ?_, ?_⟩
   · intro hpos
     obtain ⟨a1, a2⟩ := h1 hpos
     rcases rst with ⟨e1, e2⟩ | ⟨e1, _⟩ | ⟨e1, _⟩ | ⟨e1, _⟩
@@ -61,102 +119,175 @@ theorem cs_frame {l l' : List Tp} {c : Comp} (h : CS l c)
   · intro hc; rw [rc, rcb]; exact h3 hc
   · intro hcb ml tl hml htl
     rw [rc] at hcb ⊢
-    obtain ⟨x, hx, e⟩ := hmem ml (List.mem_of_getElem? hml) tl htl
-    rw [e]; exact h4 hcb ml x hml hx
+    obtain ⟨x, hx, e, _⟩ := hmem ml (List.mem_of_getElem? hml) tl htl
+    have hcn : c.completed = c.members.length := by
+      rcases Nat.lt_or_ge c.completed c.members.length with hh | hh
+      · exact absurd (h3 hh).1 hcb
+      · have := hci.le; omega
+    rcases e with e | e
+    · rw [e]; exact h4 hcb ml x hml hx
+    · -- the last member is past its callback: it is not `added`
+      obtain ⟨y, hy, _, b2, _, _⟩ := hci.mem _ _ hml
+      rw [hx] at hy; cases hy
+      have hne := h.ne
+      rcases b2 (by omega) with e' | e' | e' <;> rw [e] at e' <;> cases e'
+  · intro m tm hm htm hne
+    obtain ⟨x, hx, _, ea⟩ := hmem m hm tm htm
+    rcases ea with ea | ⟨es, ea⟩
+    · -- the member keeps its add stamp; the object may just have got its own
+      rw [ea] at hne ⊢
+      obtain ⟨g1, g2⟩ := h5 m x hm hx hne
+      rcases ra with e | ⟨e, _⟩
+      · rw [e]; exact ⟨g1, g2⟩
+      · exact absurd (members_fresh_of_adding hci h hS hts (Or.inl e) m x hm hx) hne
+    · -- the member is being incremented now: the object is added (and armed)
+      obtain ⟨i, hil, hig⟩ := List.getElem_of_mem hm
+      have hi : c.members[i]? = some m := by rw [List.getElem?_eq_getElem hil, hig]
+      obtain ⟨y, hy, _, b2, b3, b4⟩ := hci.mem i m hi
+      rw [hx] at hy; cases hy
+      have hic : i = c.completed := by
+        rcases Nat.lt_trichotomy i c.completed with hlt | heq | hgt
+        · rcases b2 hlt with e | e | e <;> rw [es] at e <;> cases e
+        · exact heq
+        · have := b3 hgt; rw [es] at this; cases this
+      have hpend := (b4 hic).2.2 (by rw [es]; simp)
+      obtain ⟨sa, _⟩ := h1 (by omega)
+      have hok := hS ts (List.mem_of_getElem? hts)
+      simp only [tpOK, sa] at hok
+      rcases ra with e | ⟨e, _⟩
+      · rw [e, ea]; omega
+      · rw [sa] at e; cases e
 
-/-- under a context move allowed by the compound machine every member keeps its callback stamp -/
-theorem member_cbAt_chg {s : St} {tr : Tr} {p : Nat} {tp x : Tp} {c : Comp} (hci : CI s.tps c) (htp : s.tps[p]? = some tp)
-    (hpm : p ∈ c.members) (hnd : ∀ t, tr ≠ .detect t p) (hna : ∀ t, tr ≠ .actionDone t p) (chg : Chg s tr p tp x) :
-    x.cbAt = tp.cbAt := by
-  cases chg with
-  | same h1 h2 h3 => exact h3
-  | call h0 h1 h2 h3 h4 => exact h4
-  | inc h1 h2 h3 h4 => exact h4
-  | det h0 h1 h2 h3 h4 => obtain ⟨t, rfl⟩ := h0; exact absurd rfl (hnd t)
-  | dec h1 h2 h3 h4 => exact h4
-  | early he =>
-    obtain ⟨k, hk, hget⟩ := List.getElem_of_mem hpm
-    obtain ⟨y, hy, hye, _⟩ := hci.mem k p (by rw [List.getElem?_eq_getElem hk, hget])
-    rw [htp] at hy; cases hy
-    rw [he] at hye; cases hye
-  | ndet h0 h1 h2 h3 h4 => obtain ⟨t, rfl⟩ := h0; exact absurd rfl (hna t)
-  | ndec h1 h2 h3 h4 => exact h4
+/-- ONE transition of the context machine against ONE compound: the chain and object clauses survive provided
+    the transition does not detect a member or the object directly, does not start adding a member, does not touch
+    the object's pending count, and decrements for a nested member only after the compound was notified -/
+theorem cics_step {s s' : St} {tr : Tr} {c : Comp} (hI : Inv s) (hS : SInv s) (hs : step? s tr = some s')
+    (hci : CI s.tps c) (hcs : CS s.tps c) (hnd : c.members.Nodup) (hown : c.self ∉ c.members)
+    (hdet : ∀ t p, tr = .detect t p → p ∉ c.members ∧ p ≠ c.self)
+    (hcall : ∀ t p, (tr = .addCall t p ∨ tr = .startupAdd t p) → p ∉ c.members)
+    (hact : ∀ t, tr ≠ .actionDone t c.self)
+    (hsr : ∀ t n, tr = .startupReady t n → s.subs[t]? ≠ some (.startup c.self))
+    (hins : ∀ t, tr ≠ .insert t c.self)
+    (hndec : ∀ t rest q, tr = .nestDec t → s.nests[t]? = some (q :: rest) → q ∈ c.members →
+        ∀ i, c.members[i]? = some q → i < c.completed) :
+    CI s'.tps c ∧ CS s'.tps c := by
+  obtain ⟨ts, hts, h0, he, hss, _⟩ := hcs.ex
+  have hselfrel : ∀ ts0 : Tp, s.tps[c.self]? = some ts0 → ∃ ts' : Tp, s'.tps[c.self]? = some ts' ∧ SelfRel ts0 ts' := by
+    intro ts0 hts0
+    rw [hts] at hts0; cases hts0
+    refine step?_self hI hs hts h0 he hss ?_ hins hsr hact
+    intro t e; exact (hdet t c.self e).2 rfl
+  rcases step?_chg hI hS hs with e | ⟨p, tp, x, htp, hset, hearly, chg⟩
+  · refine ⟨by rw [e]; exact hci, ?_⟩
+    apply cs_frame hcs hci hS.tpok hselfrel
+    intro m _ tp' htp'
+    rw [e] at htp'; exact ⟨tp', htp', Or.inl rfl, Or.inl rfl⟩
+  · -- stamps of the members under this change
+    have hmemst : ∀ m ∈ c.members, ∀ tp' : Tp, s'.tps[m]? = some tp' → ∃ y : Tp, s.tps[m]? = some y ∧
+        (tp'.cbAt = y.cbAt ∨ y.st = .added) ∧ (tp'.addAt = y.addAt ∨ (y.st = .adding ∧ tp'.addAt = s.clock)) := by
+      intro m hm tp' htp'
+      rw [hset, get_set_tp _ _ _ _ _ htp] at htp'
+      by_cases hmp : m = p
+      · rw [if_pos hmp] at htp'; cases htp'
+        subst hmp
+        refine ⟨tp, htp, ?_, ?_⟩
+        · cases chg with
+          | same h1 h2 h3 => exact Or.inl h3
+          | call h0 h1 h2 h3 h4 => exact Or.inl h4
+          | inc h1 h2 h3 h4 => exact Or.inl h4
+          | det h0 h1 h2 h3 h4 => exact Or.inr h1
+          | dec h1 h2 h3 h4 => exact Or.inl h4
+          | early he' =>
+            obtain ⟨k, hk, hget⟩ := List.getElem_of_mem hm
+            obtain ⟨y, hy, hye, _⟩ := hci.mem k m (by rw [List.getElem?_eq_getElem hk, hget])
+            rw [htp] at hy; cases hy
+            rw [he'] at hye; cases hye
+          | ndet h0 h1 h2 h3 h4 => exact Or.inr h1
+          | ndec h0 h1 h2 h3 h4 => exact Or.inl h4
+        · cases chg with
+          | same h1 h2 h3 => exact Or.inl h2
+          | call h0 h1 h2 h3 h4 => exact Or.inl h3
+          | inc h1 h2 h3 h4 => exact Or.inr ⟨h1, h3⟩
+          | det h0 h1 h2 h3 h4 => exact Or.inl h3
+          | dec h1 h2 h3 h4 => exact Or.inl h3
+          | early he' =>
+            obtain ⟨k, hk, hget⟩ := List.getElem_of_mem hm
+            obtain ⟨y, hy, hye, _⟩ := hci.mem k m (by rw [List.getElem?_eq_getElem hk, hget])
+            rw [htp] at hy; cases hy
+            rw [he'] at hye; cases hye
+          | ndet h0 h1 h2 h3 h4 => exact Or.inl h3
+          | ndec h0 h1 h2 h3 h4 => exact Or.inl h3
+      · rw [if_neg hmp] at htp'; exact ⟨tp', htp', Or.inl rfl, Or.inl rfl⟩
+    refine ⟨?_, cs_frame hcs hci hS.tpok hselfrel hmemst⟩
+    show CI s'.tps c
+    cases chg with
+    | same h1 h2 h3 => exact ci_set_frame hci htp hset (Or.inr ⟨Or.inl h1, h2, h3, hearly⟩)
+    | call h0 h1 h2 h3 h4 =>
+      rcases h0 with ⟨t, e⟩ | ⟨t, e⟩
+      · exact ci_set_frame hci htp hset (Or.inl (hcall t p (Or.inl e)))
+      · exact ci_set_frame hci htp hset (Or.inl (hcall t p (Or.inr e)))
+    | inc h1 h2 h3 h4 =>
+      by_cases hm : p ∈ c.members
+      · exact ci_set_inc hci hS.tpok hnd htp hset hm h1 h2 h3 h4 hearly
+      · exact ci_set_frame hci htp hset (Or.inl hm)
+    | det h0 h1 h2 h3 h4 =>
+      obtain ⟨t, e⟩ := h0
+      exact ci_set_frame hci htp hset (Or.inl (hdet t p e).1)
+    | dec h1 h2 h3 h4 => exact ci_set_frame hci htp hset (Or.inr ⟨Or.inr (Or.inl ⟨h1, h2⟩), h3, h4, hearly⟩)
+    | early he' =>
+      by_cases hm : p ∈ c.members
+      · obtain ⟨k, hk, hget⟩ := List.getElem_of_mem hm
+        obtain ⟨y, hy, hye, _⟩ := hci.mem k p (by rw [List.getElem?_eq_getElem hk, hget])
+        rw [htp] at hy; cases hy
+        rw [he'] at hye; cases hye
+      · exact ci_set_frame hci htp hset (Or.inl hm)
+    | ndet h0 h1 h2 h3 h4 =>
+      by_cases hm : p ∈ c.members
+      · exact ci_set_ndet hci hS.tpok hnd htp hset h1 h2 h3 hearly
+      · exact ci_set_frame hci htp hset (Or.inl hm)
+    | ndec h0 h1 h2 h3 h4 =>
+      by_cases hm : p ∈ c.members
+      · obtain ⟨t, rest, e, hn⟩ := h0
+        exact ci_set_frame hci htp hset (Or.inr ⟨Or.inr (Or.inr ⟨h1, h2, hndec t rest p e hn hm⟩), h3, h4, hearly⟩)
+      · exact ci_set_frame hci htp hset (Or.inl hm)
 
 theorem gi_ctx {cs : CSt} {tr : Tr} {s' : St} (h : GI cs) (ha : ctxAllowed cs tr = true) (hs : step? cs.base tr = some s') :
     GI { cs with base := s' } := by
-  have hnsr : ∀ t n, tr ≠ .startupReady t n := by intro t n e; subst e; simp [ctxAllowed] at ha
-  have hnad : ∀ t p, tr ≠ .actionDone t p := by intro t p e; subst e; simp [ctxAllowed] at ha
-  have hnsa : ∀ t p, tr ≠ .startupAdd t p := by intro t p e; subst e; simp [ctxAllowed] at ha
-  refine ⟨inv_step h.inv hs, sinv_step h.inv h.sinv hs, h.nodup, h.snodup, h.sdisj, ?_, ?_⟩
-  · intro i c hc
-    have hci := h.ci i c hc
-    rcases step?_chg h.inv h.sinv hs with e | ⟨p, tp, x, htp, hset, hearly, chg⟩
-    · show CI s'.tps c
-      rw [e]; exact hci
-    · show CI s'.tps c
-      have hmemall : p ∈ c.members → p ∈ allMembers cs.comps := fun hm => mem_allMembers hc hm
-      cases chg with
-      | same h1 h2 h3 => exact ci_set_frame hci htp hset (Or.inr ⟨Or.inl h1, h2, h3, hearly⟩)
-      | call h0 h1 h2 h3 h4 =>
-        rcases h0 with ⟨t, rfl⟩ | ⟨t, rfl⟩
-        · have := not_mem_of_contains (by simpa [ctxAllowed] using ha)
-          exact ci_set_frame hci htp hset (Or.inl (fun hm => this (hmemall hm)))
-        · simp [ctxAllowed] at ha
-      | inc h1 h2 h3 h4 =>
-        by_cases hm : p ∈ c.members
-        · exact ci_set_inc hci h.sinv.tpok (nodup_members h.nodup hc) htp hset hm h1 h2 h3 h4 hearly
-        · exact ci_set_frame hci htp hset (Or.inl hm)
-      | det h0 h1 h2 h3 h4 =>
-        obtain ⟨t, rfl⟩ := h0
-        have := not_mem_of_contains (by have := ha; simp [ctxAllowed] at this; simpa using this.1)
-        exact ci_set_frame hci htp hset (Or.inl (fun hm => this (hmemall hm)))
-      | dec h1 h2 h3 h4 => exact ci_set_frame hci htp hset (Or.inr ⟨Or.inr ⟨h1, h2⟩, h3, h4, hearly⟩)
-      | early he =>
-        by_cases hm : p ∈ c.members
-        · obtain ⟨k, hk, hget⟩ := List.getElem_of_mem hm
-          obtain ⟨y, hy, hye, _⟩ := hci.mem k p (by rw [List.getElem?_eq_getElem hk, hget])
-          rw [htp] at hy; cases hy
-          rw [he] at hye; cases hye
-        · exact ci_set_frame hci htp hset (Or.inl hm)
-      | ndet h0 h1 h2 h3 h4 => obtain ⟨t, rfl⟩ := h0; exact absurd rfl (hnad t p)
-      | ndec h1 h2 h3 h4 =>
-        by_cases hm : p ∈ c.members
-        · obtain ⟨k, hk, hget⟩ := List.getElem_of_mem hm
-          obtain ⟨y, hy, _, b2, b3, b4⟩ := hci.mem k p (by rw [List.getElem?_eq_getElem hk, hget])
-          rw [htp] at hy; cases hy
-          rcases Nat.lt_trichotomy k c.completed with hlt | heq | hgt
-          · rcases b2 hlt with e | e <;> rw [h1] at e <;> cases e
-          · rcases (b4 heq).1 with e | e | e <;> rw [h1] at e <;> cases e
-          · have := b3 hgt; rw [h1] at this; cases this
-        · exact ci_set_frame hci htp hset (Or.inl hm)
-  · intro i c hc
-    have hcs := h.cself i c hc
-    have hci := h.ci i c hc
-    show CS s'.tps c
-    obtain ⟨ts, hts, h0, he, hss, _⟩ := hcs.ex
+  refine ⟨inv_step h.inv hs, sinv_step h.inv h.sinv hs, h.nodup, h.snodup, h.sown, ?_, ?_⟩
+  all_goals
+    intro i c hc
+    have hcm : c ∈ cs.comps := List.mem_of_getElem? hc
+    have hmemall : ∀ p, p ∈ c.members → p ∈ allMembers cs.comps := fun p hm => mem_allMembers hc hm
     have hself_in : c.self ∈ allSelfs cs.comps := mem_allSelfs hc
-    apply cs_frame hcs
-    · intro ts0 hts0
-      rw [hts] at hts0; cases hts0
-      refine step?_self h.inv hs hts h0 he hss ?_ ?_ hnsr hnad hnsa
-      · intro t e; subst e
+    have key := cics_step (c := c) h.inv h.sinv hs (h.ci i c hc) (h.cself i c hc) (nodup_members h.nodup hc) (h.sown c hcm)
+      (by
+        intro t p e; subst e
         have := ha; simp [ctxAllowed] at this
-        exact this.2 hself_in
-      · intro t e; subst e
+        exact ⟨fun hm => this.1 (hmemall p hm), fun e => this.2 (e ▸ hself_in)⟩)
+      (by
+        intro t p e
+        rcases e with e | e
+        · subst e
+          have := not_mem_of_contains (by simpa [ctxAllowed] using ha)
+          exact fun hm => this (hmemall p hm)
+        · subst e; simp [ctxAllowed] at ha)
+      (by intro t e; subst e; simp [ctxAllowed] at ha)
+      (by intro t n e; subst e; simp [ctxAllowed] at ha)
+      (by
+        intro t e; subst e
         have := ha; simp [ctxAllowed] at this
-        exact this hself_in
-    · intro m hm tp' htp'
-      rcases step?_chg h.inv h.sinv hs with e | ⟨p, tp, x, htp, hset, hearly, chg⟩
-      · rw [e] at htp'; exact ⟨tp', htp', rfl⟩
-      · rw [hset, get_set_tp _ _ _ _ _ htp] at htp'
-        by_cases hmp : m = p
-        · rw [if_pos hmp] at htp'; cases htp'
-          subst hmp
-          have hmall := mem_allMembers hc hm
-          refine ⟨tp, htp, member_cbAt_chg hci htp hm ?_ (fun t => hnad t m) chg⟩
-          intro t e; subst e
-          have := ha; simp [ctxAllowed] at this
-          exact this.1 hmall
-        · rw [if_neg hmp] at htp'; exact ⟨tp', htp', rfl⟩
+        exact this hself_in)
+      (by
+        intro t rest q e hn hq i' hi'
+        subst e
+        have := ha
+        simp only [ctxAllowed, hn, Option.getD_some] at this
+        have hall := List.all_eq_true.1 this c hcm
+        simp only [Bool.or_eq_true, Bool.not_eq_true', List.contains_eq_mem, decide_eq_false_iff_not, decide_eq_true_eq] at hall
+        rcases hall with hno | hin
+        · exact absurd hq hno
+        · exact take_lt_of_nodup (nodup_members h.nodup hc) hin hi')
+  · exact key.1
+  · exact key.2
 
 end ParsecVerif.Compound
